@@ -8,7 +8,7 @@
      mode    0: run the schedule        1: enumerate maximal schedules (budget = hd sched)
      cfg     [machine_context lock ids, hierarchical?]   lock 0 = the default PicklableLock (not
              instrumented: its acquire/release are not observable), ids >= 1 = user contexts
-     machine [state ids, [[event, src, dst] ...], [[model, initial state, registered?, [model_context ids]] ...]]
+     machine [state ids, [[event, src, dst] ...], [[model, initial state, registered?, [model_context ids]] ...], queued?]
      calls   [[cid, kind, a, b, c, [[slot, action, arg] ...], [models], [model_context ids]] ...]
              kind 0 event a=model b=event | 1 set_state a=model b=state | 2 add_transition a=event b=src c=dst
                   3 add_states a=state | 4 remove_model [models] | 5 add_model [models] initial=b model_context
@@ -33,12 +33,17 @@ Record cspec : Type := mkSpec {
   s_ms : list nat; s_mc : list nat
 }.
 
+(* Machine(queued=True): _transition_queue; q_busy = an event is being processed (the queue is not empty),
+   q_queue = the events (call ids) appended meanwhile *)
+Record qinfo : Type := mkQ { q_queued : bool; q_busy : bool; q_queue : list nat }.
+
 Record cms : Type := mkMS {
   m_states : list nat;
   m_trans : list (nat * (nat * nat));
   m_models : list (nat * nat);           (* every model object -> its state attribute *)
   m_reg : list nat;                      (* machine.models, in order *)
-  m_cmap : list (nat * list nat)         (* non-empty entries of model_context_map: model -> its model contexts *)
+  m_cmap : list (nat * list nat);        (* non-empty entries of model_context_map: model -> its model contexts *)
+  m_q : qinfo
 }.
 
 Fixpoint lookup_l (l : list (nat * list nat)) (m : nat) : option (list nat) :=
@@ -53,9 +58,10 @@ Record evp : Type := mkEvp { e_cid : nat; e_m : nat; e_dst : nat; e_res : cres }
 
 Inductive kk : Type :=
 | KMeth (cid : nat) | KInit (cid : nat) | KCb (sl : nat) (e : evp) | KPost (sl : nat) (e : evp)
-| KFcb (cid : nat) (m : nat) (rem : nat).   (* machine.callback / machine.callbacks called directly: rem user callables left *)
+| KFcb (cid : nat) (m : nat) (rem : nat)
+| KDeq (cid : nat).                         (* queued machine: the next pending event is taken from the queue *)   (* machine.callback / machine.callbacks called directly: rem user callables left *)
 
-Definition citem : Type := (nat * (nat * nat))%type.    (* slot, model, state seen *)
+Definition citem : Type := (nat * (nat * (nat * nat)))%type.    (* event's call id, slot, model, state seen *)
 
 Fixpoint find_spec (tab : list cspec) (cid : nat) : option cspec :=
   match tab with
@@ -73,7 +79,7 @@ Fixpoint set_assoc (l : list (nat * nat)) (m s : nat) : list (nat * nat) :=
   end.
 
 Definition set_model_state (ms : cms) (m s : nat) : cms :=
-  mkMS (m_states ms) (m_trans ms) (set_assoc (m_models ms) m s) (m_reg ms) (m_cmap ms).
+  mkMS (m_states ms) (m_trans ms) (set_assoc (m_models ms) m s) (m_reg ms) (m_cmap ms) (m_q ms).
 
 (* Machine.add_model (core): a model not yet in machine.models gets the initial state and is appended *)
 Fixpoint core_add (ms : cms) (l : list nat) (init : nat) : cms :=
@@ -81,7 +87,7 @@ Fixpoint core_add (ms : cms) (l : list nat) (init : nat) : cms :=
   | [] => ms
   | m :: r =>
       if mem m (m_reg ms) then core_add ms r init
-      else core_add (mkMS (m_states ms) (m_trans ms) (set_assoc (m_models ms) m init) (m_reg ms ++ [m]) (m_cmap ms)) r init
+      else core_add (mkMS (m_states ms) (m_trans ms) (set_assoc (m_models ms) m init) (m_reg ms ++ [m]) (m_cmap ms) (m_q ms)) r init
   end.
 
 (* HierarchicalMachine.add_model (after fix 4f24f39) initialises only the newly registered models, each from
@@ -124,6 +130,9 @@ Definition call_of_spec (s : cspec) : call :=
 Definition script_at (s : cspec) (sl : nat) : nat * nat :=
   match assoc_nat (s_script s) sl with Some x => x | None => (0, 0) end.
 
+Definition set_q (ms : cms) (q : qinfo) : cms :=
+  mkMS (m_states ms) (m_trans ms) (m_models ms) (m_reg ms) (m_cmap ms) q.
+
 Section Concrete.
   Variable tab : list cspec.
 
@@ -137,12 +146,38 @@ Section Concrete.
     | None => KMeth (c_id c)
     end.
 
+  (* the event is over.  Machine._process with a queue: an exception clears the queue and is raised; otherwise the
+     next pending event is processed by the same call; when the queue is empty the call returns True *)
+  Definition c_finish (r : cres) (ms : cms) : cms * status (K:=kk) (R:=cres) :=
+    let q := m_q ms in
+    if q_queued q then
+      match r with
+      | RExn _ => (set_q ms (mkQ true false []), SDone r)
+      | RVal _ =>
+          match q_queue q with
+          | [] => (set_q ms (mkQ true false []), SDone (RVal 1))
+          | cid' :: rest => (set_q ms (mkQ true true rest), SMore (KDeq cid'))
+          end
+      end
+    else (ms, SDone r).
+
   Definition c_post (sl : nat) (e : evp) (ms : cms) : cms * status (K:=kk) (R:=cres) :=
     match sl with
     | 0 => (ms, SMore (KCb 1 e))
     | 1 => (set_model_state ms (e_m e) (e_dst e), SMore (KCb 2 e))
     | 2 => (ms, SMore (KCb 3 e))
-    | _ => (ms, SDone (e_res e))
+    | _ => c_finish (e_res e) ms
+    end.
+
+  Definition c_begin (cid : nat) (ms : cms) : cms * list citem * status (K:=kk) (R:=cres) :=
+    match find_spec tab cid with
+    | None => (ms, [], SDone (RExn 9))
+    | Some s =>
+        let m := s_a s in
+        match first_dst (m_trans ms) (s_b s) (state_of ms m) with
+        | None => (ms, [], SMore (KCb 3 (mkEvp cid m 0 (RVal 0))))
+        | Some d => (ms, [], SMore (KCb 0 (mkEvp cid m d (RVal 1))))
+        end
     end.
 
   Definition c_resume (k : kk) (ms : cms) : cms * list citem * status (K:=kk) (R:=cres) :=
@@ -155,41 +190,38 @@ Section Concrete.
             | 1 => if existsb (Nat.eqb (s_b s)) (m_states ms)
                    then (set_model_state ms (s_a s) (s_b s), [], SDone (RVal 2))
                    else (ms, [], SDone (RExn 2))
-            | 2 => (mkMS (m_states ms) (m_trans ms ++ [(s_a s, (s_b s, s_c s))]) (m_models ms) (m_reg ms) (m_cmap ms),
+            | 2 => (mkMS (m_states ms) (m_trans ms ++ [(s_a s, (s_b s, s_c s))]) (m_models ms) (m_reg ms) (m_cmap ms) (m_q ms),
                     [], SDone (RVal 2))
-            | 3 => (mkMS (m_states ms ++ [s_a s]) (m_trans ms) (m_models ms) (m_reg ms) (m_cmap ms), [], SDone (RVal 2))
+            | 3 => (mkMS (m_states ms ++ [s_a s]) (m_trans ms) (m_models ms) (m_reg ms) (m_cmap ms) (m_q ms), [], SDone (RVal 2))
             | 4 => match lock_del (m_cmap ms) (s_ms s) with
-                   | (cm, false) => (mkMS (m_states ms) (m_trans ms) (m_models ms) (m_reg ms) cm, [], SDone (RExn 9))
+                   | (cm, false) => (mkMS (m_states ms) (m_trans ms) (m_models ms) (m_reg ms) cm (m_q ms), [], SDone (RExn 9))
                    | (cm, true) =>
                        match core_del (m_reg ms) (s_ms s) with
-                       | (rg, ok) => (mkMS (m_states ms) (m_trans ms) (m_models ms) rg cm, [],
+                       | (rg, ok) => (mkMS (m_states ms) (m_trans ms) (m_models ms) rg cm (m_q ms), [],
                                       SDone (if ok then RVal 2 else RExn 2))
                        end
                    end
             | 5 => let ms2 := core_add ms (s_ms s) (s_b s) in
-                   (mkMS (m_states ms2) (m_trans ms2) (m_models ms2) (m_reg ms2) (lock_add (m_cmap ms2) (s_ms s) (s_mc s)),
+                   (mkMS (m_states ms2) (m_trans ms2) (m_models ms2) (m_reg ms2) (lock_add (m_cmap ms2) (s_ms s) (s_mc s)) (m_q ms2),
                     [], SDone (RVal 2))
             | _ => (ms, [], SDone (RExn 9))
             end
         end
     | KInit cid =>
-        match find_spec tab cid with
-        | None => (ms, [], SDone (RExn 9))
-        | Some s =>
-            let m := s_a s in
-            match first_dst (m_trans ms) (s_b s) (state_of ms m) with
-            | None => (ms, [], SMore (KCb 3 (mkEvp cid m 0 (RVal 0))))
-            | Some d => (ms, [], SMore (KCb 0 (mkEvp cid m d (RVal 1))))
-            end
-        end
+        let q := m_q ms in
+        if q_queued q && q_busy q
+        then (* Machine._process: another entry in the queue - append and return True *)
+             (set_q ms (mkQ true true (q_queue q ++ [cid])), [], SDone (RVal 1))
+        else c_begin cid (if q_queued q then set_q ms (mkQ true true (q_queue q)) else ms)
+    | KDeq cid => c_begin cid ms
     | KCb sl e =>
-        let it := (sl, (e_m e, state_of ms (e_m e))) in
+        let it := (e_cid e, (sl, (e_m e, state_of ms (e_m e)))) in
         match find_spec tab (e_cid e) with
         | None => (ms, [it], SDone (RExn 9))
         | Some s =>
             match script_at s sl with
             | (1, _) => match sl with
-                        | 3 => (ms, [it], SDone (e_res e))          (* finalize swallows *)
+                        | 3 => let (ms', st) := c_finish (e_res e) ms in (ms', [it], st)   (* finalize swallows *)
                         | _ => (ms, [it], SMore (KCb 3 (mkEvp (e_cid e) (e_m e) (e_dst e) (RExn 3))))
                         end
             | (2, cid') =>
@@ -204,7 +236,7 @@ Section Concrete.
     | KFcb cid m rem =>
         (* the public methods callback(func, event_data) / callbacks(funcs, event_data) run user callables; each is a
            segment (slot 4) *)
-        let it := (4, (m, state_of ms m)) in
+        let it := (cid, (4, (m, state_of ms m))) in
         match rem with
         | 0 | 1 => (ms, [it], SDone (RVal 2))
         | S r => (ms, [it], SMore (KFcb cid m r))
@@ -319,13 +351,15 @@ Definition d_modelx (x : sx) : option (nat * nat * bool * list nat) :=
 
 Definition d_machine (x : sx) : option cms :=
   match x with
-  | L [sts; trs; mods] =>
+  | L [sts; trs; mods; qd] =>
+      do qd' <- d_bool qd;
       do sts' <- d_nats sts;
       do trs' <- d_list d_triple trs;
       do mods' <- d_list d_modelx mods;
       Some (mkMS sts' trs' (map (fun x : nat * nat * bool * list nat => (fst (fst (fst x)), snd (fst (fst x)))) mods')
                  (flat_map (fun x : nat * nat * bool * list nat => if snd (fst x) then [fst (fst (fst x))] else []) mods')
-                 (flat_map (fun x : nat * nat * bool * list nat => if snd (fst x) then [(fst (fst (fst x)), snd x)] else []) mods'))
+                 (flat_map (fun x : nat * nat * bool * list nat => if snd (fst x) then [(fst (fst (fst x)), snd x)] else []) mods')
+                 (mkQ qd' false []))
   | _ => None
   end.
 
@@ -350,7 +384,7 @@ Definition e_lev (e : lev (R:=cres) (I:=citem)) : list sx :=
   | EvRel t (CLock (S l)) => [L [N 1; N t; N (S l)]]
   | EvBlocked t (CLock l) => [L [N 3; N t; N l]]
   | EvRefuse t (CLock l) => [L [N 5; N t; N l]]
-  | EvSeg t c its => map (fun it : citem => L [N 2; N t; N (c_id c); N (fst it); N (fst (snd it)); N (snd (snd it))]) its
+  | EvSeg t c its => map (fun it : citem => L [N 2; N t; N (fst it); N (fst (snd it)); N (fst (snd (snd it))); N (snd (snd (snd it)))]) its
   | EvRet t c r => [L [N 4; N t; N (c_id c); enc_res r]]
   | _ => []
   end.
@@ -375,7 +409,7 @@ Fixpoint sx_eqb (a b : sx) : bool :=
 
 Definition e_done (d : list (cres * list citem)) : sx :=
   e_list (fun p : cres * list citem =>
-            L [enc_res (fst p); e_list (fun it : citem => L [N (fst it); N (fst (snd it)); N (snd (snd it))]) (snd p)]) d.
+            L [enc_res (fst p); e_list (fun it : citem => L [N (fst it); N (fst (snd it)); N (fst (snd (snd it))); N (snd (snd (snd it)))]) (snd p)]) d.
 
 Definition run_lock_case (x : sx) : sx :=
   match x with
